@@ -115,6 +115,7 @@ func run(t *tape.Tape, cfg sim.Config, listen bool) (res sim.Result) {
 		return runDeep(r, &res)
 	}
 	o := plan.Opts{MinFuncs: 3, MaxFuncs: 8, MaxAtoms: 6, Host: true, Traps: true, Exit: true, Grow: true, Table: true, Segments: true, HostTags: 4, GRef: true, Atomics: true, Wide: true, Host2: true}
+	o.Loopy = t.Chance(1, 5)
 	switch cfg.Class {
 	case "faultfree":
 		r.opts = classOpts{}
@@ -226,7 +227,7 @@ func run(t *tape.Tape, cfg sim.Config, listen bool) (res sim.Result) {
 		r.ctx = experimental.WithSnapshotter(r.ctx)
 		res.Stat("probe.snapshotter_context", 1)
 	}
-	r.w = &plan.World{Host: r.modelHost, Listen: r.listens}
+	r.w = &plan.World{Host: r.modelHost, Listen: r.listens, EnsureTerm: r.ensureTerm, Interp: r.engine == "interpreter"}
 	ncalls := t.Range(5, 30)
 	overflows := 0
 	cached := map[string]api.Function{}
